@@ -216,7 +216,8 @@ Proof.
   apply andb_true_iff in E; destruct E as [E1 E2].
   destruct kx as [|tx [|]]; try discriminate. destruct ky as [|ey [|]]; try discriminate.
   destruct (ty_param tx) as [p|] eqn:Ep; try discriminate.
-  destruct (label_eqb ly (K "GConst" "")) eqn:El; try discriminate.
+  destruct (label_eqb ly (K "GConst" "") && is_expr_kind (tlabel ey)) eqn:El; try discriminate.
+  apply andb_true_iff in El. destruct El as [El _].
   inversion H; subst; clear H. apply label_eqb_eq in El; subst ly.
   intros s' Hs'. unfold subs_ex in Hs'. apply ext_single in Hs'.
   rewrite apply_eq. unfold apply_node.
@@ -412,7 +413,8 @@ Proof.
       apply equivb_refl. }
   (* expression parameter *)
   destruct (ex_param (Node la ka)) as [p|] eqn:Eep.
-  { intros s' Hs'. rewrite apply_eq. unfold apply_node. rewrite Etp, Eep. unfold bound_term.
+  { destruct (is_expr_kind lb); [|discriminate].
+    intros s' Hs'. rewrite apply_eq. unfold apply_node. rewrite Etp, Eep. unfold bound_term.
     unfold param_vs in Hs.
     destruct (ex_param (Node lb kb)) as [q|] eqn:Eq.
     - destruct (String.eqb p q) eqn:Epq; inversion Hs; subst; clear Hs.
